@@ -54,13 +54,34 @@ def freqs(rng, n=None):
     return sorted(round(rng.uniform(0.3, 20.0), 4) for _ in range(n or rng.randint(3, 6)))
 
 
-_LAST_RANGE = {}     # id(object) -> (limits, n_points) of the last set_smooth_fa_frequecies_by_range performed on it
+class _PerObject:
+    """memory attached to an object for as long as it lives.  (A plain dict keyed on id() outlives the object: the address is reused by a later
+    object -- or not, depending on the allocator --, which made the random stream, hence the whole run, differ between two runs with one seed.)"""
+
+    def __init__(self):
+        import weakref
+        self._d = weakref.WeakKeyDictionary()
+
+    def get(self, obj):
+        try:
+            return self._d.get(obj)
+        except TypeError:
+            return None
+
+    def put(self, obj, value):
+        try:
+            self._d[obj] = value
+        except TypeError:
+            pass
+
+
+_LAST_RANGE = _PerObject()     # object -> (limits, n_points) of the last set_smooth_fa_frequecies_by_range performed on it
 
 
 def _a_range(rng, s):
     """half of the time repeat EXACTLY the range and point count used before on this object (or the constructor default range with
     the current number of points): a 'nothing changed' shortcut must not fire when the frequencies were replaced in between"""
-    last = _LAST_RANGE.get(id(s))
+    last = _LAST_RANGE.get(s)
     r = rng.random()
     if last is not None and r < 0.5:
         args = {'limits': list(last[0]), 'n_points': last[1]}
@@ -68,7 +89,7 @@ def _a_range(rng, s):
         args = {'limits': [0.1, 30], 'n_points': len(s.smooth_fa_freqs)}
     else:
         args = {'limits': [round(rng.uniform(0.1, 0.5), 3), round(rng.uniform(5, 20), 3)], 'n_points': rng.randint(4, 8)}
-    _LAST_RANGE[id(s)] = (tuple(args['limits']), args['n_points'])
+    _LAST_RANGE.put(s, (tuple(args['limits']), args['n_points']))
     return args
 
 
@@ -166,13 +187,13 @@ def apply_op(s, name, args):
     if name == 'values=':
         a = np.array(args['values']); s.values = a
     elif name == 'reset_values':
-        a = np.array(args['values']); s.reset_values(a)
+        a = passed_array(s, args, 'values'); s.reset_values(a)
     elif name == 'add_constant':
         s.add_constant(args['constant'])
     elif name == 'add_series':
-        a = np.array(args['series']); s.add_series(a)
+        a = passed_array(s, args, 'series'); s.add_series(a)
     elif name == 'add_signal':
-        a = np.array(args['series']); s.add_signal(eqsig.Signal(a, s.dt))
+        a = passed_array(s, args, 'series'); s.add_signal(eqsig.Signal(a, s.dt))
     elif name == 'butter_pass':
         s.butter_pass(tuple(args['cut_off']))
     elif name == 'remove_average':
@@ -335,3 +356,174 @@ def expected_settings(name, args, sff, rt):
     if name in ('response_times=', 'gen_response_spectrum/given', 'generate_response_spectrum/given', 'response_series/given'):
         return None, np.array(args['periods'], dtype=float)
     return None, None
+
+
+# ---- round 7 (hx_r7a) --------------------------------------------------------------------------------------------------------------------
+# (1) arrays the caller OBTAINED FROM THE OBJECT and hands back (the trim idiom sig.reset_values(sig.values[i0:i1]), sig.add_series(sig.values)):
+#     args {'own_view': 'self' | [i0, i1, step]} instead of a list of numbers; from the call on the array is one the caller passed in.
+# (2) argument makers WITH MEMORY for every array-valued setting (response periods, smoothing frequencies, by-range limits): relatives of
+#     the value the object holds NOW -- same count and same ends with another interior (linear <-> geometric spacing over the same range, one
+#     interior entry moved, the interior permuted), every entry 3e-7 relative away, an exact repeat -- next to unrelated new values: a "nothing
+#     changed" shortcut keyed on length / ends / closeness / sorted content of a setting must not keep what was derived from the old one.
+#     These are ordinary operations of the existing kinds (same rows of the effect table; the C04 state machine sees the same names).
+
+def own_view(s, spec):
+    """the array a caller gets from the object: sig.values itself ('self') or the view sig.values[i0:i1:step]"""
+    v = s.values
+    if spec == 'self':
+        return v
+    i0, i1, st = spec
+    return v[i0:i1:st]
+
+
+def passed_array(s, args, key):
+    """the ndarray a value-taking call passes: made from the list args[key]; or, args {'own_view': spec}, obtained from the object itself;
+    or, args {'own_view': spec, 'donor_values': [...]}, obtained the same way from ANOTHER signal object holding donor_values (a view that
+    does not own its data, handed to this object)"""
+    if 'own_view' in args:
+        if 'donor_values' in args:
+            import eqsig
+            return own_view(eqsig.Signal(np.array(args['donor_values'], dtype=float), s.dt), args['own_view'])
+        return own_view(s, args['own_view'])
+    return np.array(args[key])
+
+
+def own_view_content(s, args):
+    """copy of the content of the array an {'own_view': ...} call is about to pass (None for every other call); to be taken BEFORE the call"""
+    if isinstance(args, dict) and 'own_view' in args:
+        return np.array(passed_array(s, args, None), copy=True)
+    return None
+
+
+def _a_own_view(rng, s, full_length):
+    n = len(s.values)
+    specs = ['self', [0, None, 1], [None, None, -1]]
+    if not full_length and n >= 24:
+        i0 = rng.randint(0, n // 3)
+        i1 = rng.randint(n - n // 3, n)
+        specs += [[i0, i1, 1], [i0, i1, 1], [i0, None, 1], [0, i1, 1], [0, None, 2]]
+    return {'own_view': rng.choice(specs)}
+
+
+def _a_reset_any(rng, s):
+    if isinstance(getattr(s, 'values', None), np.ndarray) and len(s.values) >= 8 and rng.random() < 0.15:
+        return _a_own_view(rng, s, False)
+    return _a_reset(rng, s, rng.choice([None, None, 48, 80, 96, 130]))
+
+
+def _a_series_any(rng, s):
+    if isinstance(getattr(s, 'values', None), np.ndarray) and len(s.values) >= 8 and rng.random() < 0.15:
+        return _a_own_view(rng, s, True)
+    return _a_series(rng, s)
+
+
+REL_KINDS = ('same ends, other spacing', 'one interior entry moved', 'interior permuted', 'every entry 3e-7 away', 'repeat')
+
+
+def related_array(rng, cur, kind=None):
+    """a setting array (list of floats) related to the current one; kind=None: any applicable kind; None when `kind` does not apply to `cur`
+    (fewer than 3 entries, equal ends, constant interior)"""
+    cur = np.asarray(cur, dtype=float).ravel()
+    n = len(cur)
+    if n == 0 or not np.all(np.isfinite(cur)):
+        return None
+    kinds = ['repeat', 'every entry 3e-7 away']
+    if n >= 3 and cur[0] != cur[-1]:
+        kinds += ['same ends, other spacing', 'one interior entry moved']
+    if n >= 4 and len(set(cur[1:-1].tolist())) > 1:
+        kinds.append('interior permuted')
+    if kind is None:
+        kind = rng.choice(kinds[1:] + kinds[2:])          # the relatives that differ inside get double weight, a plain repeat a small one
+        if rng.random() < 0.12:
+            kind = 'repeat'
+    if kind not in kinds:
+        return None
+    out = cur.copy()
+    if kind == 'every entry 3e-7 away':
+        sg = rng.choice([1.0, -1.0])
+        out = np.array([x * (1 + 3e-7 * (sg if rng.random() < 0.8 else -sg)) for x in cur])
+    elif kind == 'same ends, other spacing':
+        lo, hi = cur[0], cur[-1]
+        t = np.arange(n) / (n - 1.0)
+        cands = [lo + (hi - lo) * t, lo + (hi - lo) * t ** 2]
+        if lo * hi > 0:
+            cands.insert(0, lo * (hi / lo) ** t)
+        cands = [c for c in cands if np.max(np.abs(c[1:-1] - cur[1:-1])) > 1e-3 * max(abs(lo), abs(hi))]
+        out = cands[0] if rng.random() < 0.6 else rng.choice(cands)     # mostly linear <-> geometric
+        out[0], out[-1] = lo, hi
+    elif kind == 'one interior entry moved':
+        j = rng.randrange(1, n - 1)
+        nb = cur[j + 1] if rng.random() < 0.5 else cur[j - 1]
+        out[j] = cur[j] + 0.37 * (nb - cur[j]) if nb != cur[j] else cur[j] * 1.01 + 1e-3
+    elif kind == 'interior permuted':
+        inner = cur[1:-1].tolist()
+        for _ in range(20):
+            rng.shuffle(inner)
+            if inner != cur[1:-1].tolist():
+                break
+        else:
+            inner = inner[1:] + inner[:1]
+        out[1:-1] = inner
+    return [float(x) for x in out]
+
+
+def periods_any(rng):
+    """new response periods: a few random ones (as before) or a regular grid of 3..8 periods, linearly or geometrically spaced"""
+    if rng.random() < 0.65:
+        return periods(rng)
+    lo, hi, n = round(rng.uniform(0.15, 0.5), 3), round(rng.uniform(1.0, 3.0), 3), rng.randint(3, 8)
+    g = np.linspace(lo, hi, n) if rng.random() < 0.5 else np.geomspace(lo, hi, n)
+    return [float(x) for x in g]
+
+
+def _a_periods_rel(rng, s):
+    cur = getattr(s, 'response_times', None)
+    if cur is not None and rng.random() < 0.45:
+        rel = related_array(rng, cur)
+        if rel is not None:
+            return {'periods': rel}
+    return {'periods': periods_any(rng)}
+
+
+def _a_freqs_rel(rng, s):
+    if rng.random() < 0.4:
+        rel = related_array(rng, s.smooth_fa_freqs)
+        if rel is not None:
+            return {'freqs': rel}
+    return _a_freqs_same_count(rng, s)
+
+
+def _a_range_rel(rng, s):
+    """by-range limits with memory: the limits used before 3e-7 away (same count), the same limits with another count, the ENDS of the
+    frequencies the object holds now with their count (same count and ends, log spacing inside: differs when they were set by value)"""
+    last = _LAST_RANGE.get(s)
+    cur = np.asarray(s.smooth_fa_freqs, dtype=float)
+    r = rng.random()
+    args = None
+    if r < 0.12 and last is not None:
+        sg = rng.choice([1.0, -1.0])
+        args = {'limits': [last[0][0] * (1 + 3e-7 * sg), last[0][1] * (1 - 3e-7 * sg)], 'n_points': last[1]}
+    elif r < 0.2 and last is not None:
+        args = {'limits': list(last[0]), 'n_points': max(3, last[1] + rng.choice([-1, 1, 2]))}
+    elif r < 0.35 and len(cur) >= 3 and cur[0] > 0 and cur[-1] > 0 and cur[0] != cur[-1]:
+        args = {'limits': [float(cur[0]), float(cur[-1])], 'n_points': len(cur)}
+    if args is None:
+        return _a_range(rng, s)
+    _LAST_RANGE.put(s, (tuple(args['limits']), args['n_points']))
+    return args
+
+
+ARGS.update({
+    'reset_values': _a_reset_any,
+    'add_series': _a_series_any,
+    'add_signal': _a_series_any,
+    'smooth_fa_freqs=': _a_freqs_rel,
+    'smooth_fa_frequencies=': _a_freqs_rel,
+    'gen_smooth_fa_spectrum/given': _a_freqs_rel,
+    'set_smooth_fa_frequecies_by_range': _a_range_rel,
+    'smooth_freq_range=': lambda rng, s: {'limits': _a_range_rel(rng, s)['limits']},
+    'response_times=': _a_periods_rel,
+    'gen_response_spectrum/given': _a_periods_rel,
+    'generate_response_spectrum/given': _a_periods_rel,
+    'response_series/given': _a_periods_rel,
+})
